@@ -10,7 +10,8 @@ VERIF = tlc.VERIF
 def make_pool(rnd):
     """8 sources: accepted and rejected, covering the defaulted-NoneValue paths (no ORG, no operands, data only, PCR, expressions)"""
     pool = [README]
-    pool.append([" NOP \n", " RTS \n", " LDA #2+3\n", " LDX #$10*2\n", " SWI \n"])          # no ORG, no labels; constant expressions
+    pool.append([" NOP \n", " RTS \n", " LDA #2+3\n", " LDX #$10*2\n", " SWI "])            # no ORG, no labels; constant expressions; the LAST LINE HAS NO
+    #                                                                                 line terminator (what readlines() gives for such a file): the list must come back as given
     prog, _ = proggen.gen_program(rnd, 6, 14, faults=False)
     pool.append(Case(prog).lines)                                                   # random valid program (PCR, branches, data)
     bad = list(README)
@@ -23,7 +24,7 @@ def make_pool(rnd):
     m[k] = mutate_line(rnd, m[k])
     pool.append(m)                                                                  # a mutated program (accepted or rejected)
     # two programs that include the same file with its labels at different statement positions, and a very long label
-    pool.append([" ORG $0E00\n", " INCLUDE lib.asm\n", "START LDA #1\n", " JMP DONE\n", " BRA LIBTOP\n"])
+    pool.append([" ORG $0E00\n", " INCLUDE lib.asm\n", "START LDA #1\n", " JMP DONE\n", " BRA LIBTOP"])       # (no terminator on the last line either)
     pool.append([" ORG $0E00\n", "VERYLONGLABELNAME1 NOP \n", " NOP \n", " LDX #VERYLONGLABELNAME1\n", " INCLUDE lib.asm\n", " JMP DONE\n", " LDA LIBTOP,PCR\n"])
     return pool
 
@@ -68,7 +69,7 @@ def poison_suite(ctx, rnd, thorough):
     are as varied as the assembler's diagnostics - must not change what six probe programs assemble to (their reference: alone, fresh process)."""
     from harness import asmgen, asmcheck
     t0 = time.time()
-    probes = [README, [" NOP \n", " LDA #2+3\n", " LDX #$10*2\n", "K EQU 7\n", " LDB #K+1\n", " LDY #K*K\n", " SWI \n"],
+    probes = [README, [" NOP \n", " LDA #2+3\n", " LDX #$10*2\n", "K EQU 7\n", " LDB #K+1\n", " LDY #K*K\n", " SWI "],          # last line without terminator
               Case(proggen.gen_program(rnd, 8, 14, faults=False)[0]).lines,
               [" ORG $0E00\n", " INCLUDE lib.asm\n", "START LDA #1\n", " JMP DONE\n", " BRA LIBTOP\n"],
               [" ORG $2000\n", "VERYLONGLABELNAME1 NOP \n", " LDX #VERYLONGLABELNAME1\n", " INCLUDE lib.asm\n", " JMP DONE\n", " LDA LIBTOP,PCR\n"],
